@@ -593,18 +593,35 @@ class PEP(object):
             # Translate the heuristic into the objective and solve the associated problem
             if dimension_reduction_heuristic == "trace":
                 wrapper.heuristic(np.identity(Point.counter))
-                solver_status, solver_name, wc_value = wrapper.solve(**kwargs)
+                solver_status, solver_name, heuristic_wc_value = wrapper.solve(**kwargs)
 
-                # Compute minimal number of dimensions
-                G_value, F_value = wrapper.get_primal_variables()
-                nb_eigenvalues, eig_threshold, corrected_G_value = self.get_nb_eigenvalues_and_corrected_matrix(G_value)
+                if heuristic_wc_value is None:
+                    # The solver failed on the dimension reduction problem: keep the solution of the original problem.
+                    if verbose:
+                        print("\033[96m(PEPit) Postprocessing: the solver failed on the dimension reduction problem;"
+                              " the solution of the original problem is kept.\033[0m")
+                else:
+                    wc_value = heuristic_wc_value
+
+                    # Compute minimal number of dimensions
+                    G_value, F_value = wrapper.get_primal_variables()
+                    nb_eigenvalues, eig_threshold, corrected_G_value = self.get_nb_eigenvalues_and_corrected_matrix(
+                        G_value)
 
             elif dimension_reduction_heuristic.startswith("logdet"):
                 niter = int(dimension_reduction_heuristic[6:])
                 for i in range(1, 1 + niter):
                     W = np.linalg.inv(corrected_G_value + eig_regularization * np.eye(Point.counter))
                     wrapper.heuristic(W)
-                    solver_status, solver_name, wc_value = wrapper.solve(**kwargs)
+                    solver_status, solver_name, heuristic_wc_value = wrapper.solve(**kwargs)
+
+                    if heuristic_wc_value is None:
+                        # The solver failed on the dimension reduction problem: keep the last solution obtained.
+                        if verbose:
+                            print("\033[96m(PEPit) Postprocessing: the solver failed on the dimension reduction problem;"
+                                  " the last solution obtained is kept.\033[0m")
+                        break
+                    wc_value = heuristic_wc_value
 
                     # Compute minimal number of dimensions
                     G_value, F_value = wrapper.get_primal_variables()
